@@ -218,6 +218,7 @@ func (h *handler) OnClose(c gnet.Conn, err error) (action gnet.Action) {
 		cs.peerCause = true
 	}
 	cs.closed, cs.closeErr = true, err
+	cs.held = nil // nothing obtained from a connection outlives it
 	w.closedN++
 	w.countChanged()
 	w.logf("conn %d OnClose err=%v local=%v peer=%v", cs.idx, err != nil, cs.localReq, cs.peerCause)
@@ -229,7 +230,7 @@ func (h *handler) OnClose(c gnet.Conn, err error) (action gnet.Action) {
 	}
 	// C01: an orderly peer close must come after everything sent was offered
 	ps := w.peers[cs.idx]
-	if err != nil && !cs.localReq && !w.stopRequested && !w.stopEverAsked && ps.closedByPeer && !cs.sock.PeerSawReset() && cs.sock.WriteErrs == 0 && cs.sock.EOFReads > 0 && !w.faultTouched(cs) && cs.failed == nil && len(w.p.Faults) == 0 {
+	if err != nil && !cs.localReq && !w.stopRequested && !w.stopEverAsked && ps.closedByPeer && !cs.sock.PeerSawReset() && cs.sock.WriteErrs == 0 && (cs.sock.EOFReads > 0 || errors.Is(err, io.EOF)) && !w.faultTouched(cs) && cs.failed == nil && len(w.p.Faults) == 0 {
 		if cs.offered != ps.sent {
 			w.violate("C01", "close-before-offered", "conn %d: peer sent %d bytes and closed in order, OnClose fired after only %d bytes had been offered to OnTraffic (kernel handed over %d)", cs.idx, ps.sent, cs.offered, cs.sock.ReadBytes)
 		}
@@ -292,6 +293,8 @@ func (h *handler) OnTraffic(c gnet.Conn) (action gnet.Action) {
 	}
 	task := w.enterCB("OnTraffic", cs)
 	defer w.exitCB(task, cs)
+	cs.held = nil // what a read call returned is only good inside the callback that made it
+	defer func() { cs.held = nil }()
 	if cs.udp {
 		if cs.closed {
 			w.violate("C04", "traffic-after-close", "conn %d (udp client): OnTraffic after OnClose", cs.idx)
@@ -416,6 +419,7 @@ func (s *scriptWriter) Write(p []byte) (int, error) {
 // doRead performs one read-method call and checks it. Returns false after a violation.
 func (w *World) doRead(cs *connState, op *ROp) bool {
 	c := cs.c
+	cs.held = nil // any read-type call may invalidate what the previous one returned
 	buffered := c.InboundBuffered()
 	// probes: did this call have to stitch leftover bytes (ring) with fresh ones?
 	if h := vsched.Hook("inbound-split"); h != nil {
@@ -469,6 +473,7 @@ func (w *World) doRead(cs *connState, op *ROp) bool {
 		if !w.checkBytes(cs, buf, cs.consumed, "Next") {
 			return false
 		}
+		cs.held, cs.heldOff, cs.heldWhat = buf, cs.consumed, fmt.Sprintf("Next(%d)", op.N)
 		cs.consumed += len(buf)
 	case "peek", "peekdiscard":
 		buf, err := c.Peek(op.N)
@@ -494,6 +499,9 @@ func (w *World) doRead(cs *connState, op *ROp) bool {
 		if c.InboundBuffered() != buffered {
 			w.violate("C01", "peek-consumes", "conn %d: Peek(%d) changed InboundBuffered from %d to %d", cs.idx, op.N, buffered, c.InboundBuffered())
 			return false
+		}
+		if op.M == "peek" {
+			cs.held, cs.heldOff, cs.heldWhat = buf, cs.consumed, fmt.Sprintf("Peek(%d)", op.N)
 		}
 		if op.M == "peekdiscard" {
 			d, derr := c.Discard(len(buf))
@@ -659,7 +667,11 @@ func (w *World) doWrite(cs *connState, op *WOp, where string) {
 		data := outPayload(id, op.N)
 		aid := w.newAsync("asyncwrite", cs.idx, -1)
 		w.asyncs[aid].execAt = id
-		err := c.AsyncWrite(data, func(c gnet.Conn, err error) error { w.asyncWriteDone(aid, cs, id, op.N, c, err); return nil })
+		err := c.AsyncWrite(data, func(c gnet.Conn, err error) error {
+			w.asyncWriteDone(aid, cs, id, op.N, c, err)
+			scribble(data) // the operation has taken effect: the buffer is the caller's again
+			return nil
+		})
 		w.asyncIssued(aid, err)
 	case "asyncwritev":
 		id := w.newOpID()
@@ -675,8 +687,37 @@ func (w *World) doWrite(cs *connState, op *WOp, where string) {
 			off += s
 		}
 		aid := w.newAsync("asyncwritev", cs.idx, -1)
-		err := c.AsyncWritev(bs, func(c gnet.Conn, err error) error { w.asyncWriteDone(aid, cs, id, total, c, err); return nil })
+		err := c.AsyncWritev(bs, func(c gnet.Conn, err error) error {
+			w.asyncWriteDone(aid, cs, id, total, c, err)
+			scribble(data)
+			return nil
+		})
 		w.asyncIssued(aid, err)
+	}
+	w.checkHeld(cs, op.M+" in "+where)
+}
+
+func scribble(b []byte) {
+	for i := range b {
+		b[i] = 0x99
+	}
+}
+
+// checkHeld: the slice the last Next/Peek returned stays valid until the next
+// read-type call on the connection; writes made meanwhile (which draw buffers
+// from the same pools) must not change it.
+func (w *World) checkHeld(cs *connState, after string) {
+	if cs.held == nil {
+		return
+	}
+	w.probes["held-slice-rechecks"]++
+	for i, b := range cs.held {
+		if b != payloadIn(cs.idx, cs.heldOff+i) {
+			w.violate("C01", "held-slice-overwritten", "conn %d: byte %d of the %d-byte slice returned by %s (stream offset %d) changed to 0x%02x after %s, before any further read call", cs.idx, i, len(cs.held), cs.heldWhat, cs.heldOff, b, after)
+			w.violate("C12", "inbound-slice-overwritten", "conn %d: byte %d of the %d-byte slice returned by %s (stream offset %d) changed to 0x%02x after %s, before any further read call: its memory was handed to someone else", cs.idx, i, len(cs.held), cs.heldWhat, cs.heldOff, b, after)
+			cs.held = nil
+			return
+		}
 	}
 }
 
